@@ -6,6 +6,8 @@ import (
 	restful "github.com/emicklei/go-restful/v3"
 	"io"
 	stdlog "log"
+	"net/http"
+	"net/http/httptest"
 	"os"
 	"path/filepath"
 	"sort"
@@ -757,6 +759,69 @@ func Check(run *report.Run, n int) error {
 	}
 	if n >= 2000 && formerF07Sharp < n/400 {
 		return fmt.Errorf("the stream hardly visits the class of the repaired finding F07 (%d of %d cases, %d of them with a default that is not the first produced type): a regression there would go unnoticed", formerF07, n, formerF07Sharp)
+	}
+	return nil
+}
+
+// CheckHistoryPurity (C19): an entity route is requested, then routes whose handlers use the
+// per-response switches of the Response (PrettyPrint on and off, AddHeader, SetRequestAccepts) are
+// served, then the entity route again: the identical request must get the identical answer (status,
+// Content-Type, body bytes) — nothing a handler does to ITS response may leak into the next one.
+func CheckHistoryPurity(run *report.Run, n int) error {
+	Setup()
+	base := rng.New(run.Seed*1000003 + 97)
+	bad := 0
+	for i := 0; i < n; i++ {
+		r := base.Fork(uint64(i))
+		c := Gen(r)
+		cont := restful.NewContainer()
+		if c.Router == "jsr" {
+			cont.Router(restful.RouterJSR311{})
+		}
+		ws := new(restful.WebService)
+		ws.Path("/w")
+		ws.Route(ws.GET("/x").Produces(c.Produces...).To(func(req *restful.Request, resp *restful.Response) { resp.WriteEntity(theEntity) }))
+		ws.Route(ws.GET("/compact").Produces(c.Produces...).To(func(req *restful.Request, resp *restful.Response) {
+			resp.PrettyPrint(false)
+			resp.AddHeader("X-Own", "1")
+			resp.WriteEntity(theEntity)
+		}))
+		ws.Route(ws.GET("/pretty").Produces(c.Produces...).To(func(req *restful.Request, resp *restful.Response) {
+			resp.PrettyPrint(true)
+			resp.SetRequestAccepts("application/xml")
+			resp.WriteEntity(theEntity)
+		}))
+		cont.Add(ws)
+		ask := func(path string) string {
+			hr, _ := http.NewRequest("GET", path, nil)
+			if !c.Absent {
+				hr.Header.Set("Accept", c.Accept())
+			}
+			rec := httptest.NewRecorder()
+			func() {
+				defer func() { recover() }()
+				cont.Dispatch(rec, hr)
+			}()
+			return fmt.Sprintf("%d ct=%q own=%q body=%q", rec.Code, rec.Result().Header.Get("Content-Type"), rec.Result().Header.Get("X-Own"), rec.Body.String())
+		}
+		restful.DefaultResponseContentType(c.Default)
+		first := ask("/w/x")
+		for _, disturb := range []string{"/w/compact", "/w/pretty", "/w/compact"} {
+			ask(disturb)
+			again := ask("/w/x")
+			run.Evaluations++
+			run.TracesValidated++
+			run.Count("negotiation:history-replays")
+			if ClassF07b(c.Accept(), c.Produces) {
+				continue // the answer may vary between dispatches by itself (open finding F07b)
+			}
+			if again != first && bad < 3 {
+				bad++
+				run.AddViolation(report.Violation{Kind: "counterexample", What: "C19: the same request for an entity is answered differently after a request whose handler used the per-response switches of its own Response (" + disturb + ")",
+					Human: map[string]interface{}{"accept": c.Accept(), "produces": c.Produces, "default": c.Default, "router": c.Router, "served_in_between": disturb}, Real: again, Model: first})
+			}
+		}
+		restful.DefaultResponseContentType("")
 	}
 	return nil
 }
